@@ -32,7 +32,9 @@ fn main() {
             _ => panic!("bad arg"),
         }
     }
-    std::panic::set_hook(Box::new(|_| {}));
+    if std::env::var("VERIF_VERBOSE").is_err() {
+        std::panic::set_hook(Box::new(|_| {}));
+    }
     let mut out = std::fs::OpenOptions::new().create(true).append(true).open(&args[2]).unwrap();
     for (k, it) in items.iter().enumerate() {
         if k < start || k % stride != offset { continue; }
